@@ -12,6 +12,7 @@ uint64_t vs_u64(const char* name);
 void vs_assume(int cond);
 void vs_assert(int cond, const char* msg);
 uint32_t vs_choose(uint32_t n);                             // fork: returns 0..n-1
+void vs_setenv(const char* name, const char* value);          // environment variable visible to getenv()
 void vs_note(const char* what, uint64_t value);             // observable (compared natively vs symbolic-concrete)
 }
 #define HX extern "C" __attribute__((noinline))
